@@ -40,11 +40,21 @@ def main():
         only = sys.argv[sys.argv.index("--only") + 1].split(",")
     retrial = "--retrial" in sys.argv
     os.makedirs(os.path.join(ROOT, "seeded"), exist_ok=True)
-    seeds = sorted(glob.glob("/tmp/seed/C*/out/*/patch.diff") + glob.glob("/tmp/seed2/C*/out/*/patch.diff"))
-    for pf in seeds:
-        d = os.path.dirname(pf)
-        pid = d.split("/")[3]
-        n = d.split("/")[5]
+    seeds = sorted(glob.glob("/tmp/seed/C*/out/*/patch.diff") + glob.glob("/tmp/seed2/C*/out/*/patch.diff")
+                   + glob.glob("/tmp/seed3/C*/out/*/patch.diff") + glob.glob("/tmp/seed4/C*/out/*/patch.diff"))
+    todo = [(os.path.dirname(pf), os.path.dirname(pf).split("/")[3], os.path.dirname(pf).split("/")[5]) for pf in seeds]
+    if retrial:   # kept seeds are re-tried from /verif/seeded itself (the scratch seed directories may be gone)
+        have = set((pid, n) for _, pid, n in todo)
+        for kd in sorted(glob.glob(os.path.join(ROOT, "seeded", "C*-*", "patch.diff"))):
+            pid, n = os.path.basename(os.path.dirname(kd)).split("-")
+            if (pid, n) not in have:
+                todo.append((os.path.dirname(kd), pid, n))
+    names = None
+    if "--seeds" in sys.argv:
+        names = sys.argv[sys.argv.index("--seeds") + 1].split(",")
+    for d, pid, n in todo:
+        if names and ("%s-%s" % (pid, n)) not in names:
+            continue
         if only and pid not in only:
             continue
         dst = os.path.join(ROOT, "seeded", "%s-%s" % (pid, n))
